@@ -113,6 +113,10 @@ var fieldByName = func() map[string]fieldInfo {
 	m["f_nested.child"] = fieldInfo{name: "f_nested.child", kind: "msg"}
 	m["f_nested.tags"] = fieldInfo{name: "f_nested.tags", kind: "string", rep: true}
 	m["f_nested.n"] = fieldInfo{name: "f_nested.n", kind: "int"}
+	m["f_nested.child.n"] = fieldInfo{name: "f_nested.child.n", kind: "int"}
+	m["f_nested.child.child.name"] = fieldInfo{name: "f_nested.child.child.name", kind: "string"}
+	m["o_nested.name"] = fieldInfo{name: "o_nested.name", kind: "string"}
+	m["o_nested.color"] = fieldInfo{name: "o_nested.color", kind: "enum"}
 	return m
 }()
 
@@ -140,6 +144,10 @@ func validParam(r *rand.Rand, kind string) string {
 		return "a,b.c"
 	case "null":
 		return "NULL_VALUE"
+	case "struct":
+		return "%7B%22a%22%3A1%7D"
+	case "value":
+		return common.Pick(r, []string{"1", "%22s%22", "true"})
 	default:
 		return common.Pick(r, []string{"abc", "a%20b", "x-y_z.~", "%E2%82%AC", "0"})
 	}
@@ -266,7 +274,7 @@ func fillPattern(r *rand.Rand, pattern string, bad string) (path string, typedVa
 	typed := []int{}
 	for i, v := range vars {
 		k := fieldByName[v[1]].kind
-		if k != "string" && k != "" {
+		if k != "string" && k != "wstr" && k != "fm" && k != "" { // text kinds accept any marker literal
 			typed = append(typed, i)
 		}
 	}
@@ -591,6 +599,7 @@ func gen(r *rand.Rand, tier string, emit func(string)) {
 		scale = 25
 	}
 	genCores(r, scale, emit)
+	genParams(r, scale, emit)
 	genHTTP(r, scale, emit)
 	genWS(r, scale, emit)
 }
